@@ -58,9 +58,7 @@ def flowEmit (fs : List Flow) (p : Packet) : List Flow × Bool :=
   let ok :=
     if occupies = 0 || p.seg.flags.rst then true
     else match f.wnd, f.una with
-      | some w, some u =>
-        -- within the window, or a zero-window probe: one sequence number at the left edge
-        decide (p.seg.seq + occupies ≤ u + w) || (w == 0 && occupies == 1 && p.seg.seq == u)
+      | some w, some u => decide (p.seg.seq + occupies ≤ u + w)
       | _, _ => true
   let una0 := if p.seg.flags.syn then some (p.seg.seq + 1) else f.una
   (updFlow fs a b fun f => { f with maxSent := max f.maxSent (p.seg.seq + segLen p.seg),
